@@ -145,6 +145,26 @@ fn cov_cases(rng: &mut Rng, cases: &mut u64) -> Option<Vec<(String, String)>> {
             }
         }
     }
+    // a second run into the same output directory (different input and k) equals the library run in a fresh directory
+    {
+        let sc = Scratch::new("cli");
+        let out = sc.path("outd"); let lib = sc.path("libd");
+        let in1 = sc.path("a.fa"); let in2 = sc.path("b.fa");
+        let r1: Vec<Vec<u8>> = (0..4).map(|_| b"ACGTACGTACGTACGTACGTACGTACGT".to_vec()).collect();
+        let r2 = test_recs(rng, 5);
+        write_fasta(&in1, &r1); write_fasta(&in2, &r2);
+        let a1 = sv(&["cov", "-i", &in1, "-o", &out, "-k", "7", "-s", "5", "-c", "6", "--counts"]);
+        let a2 = sv(&["cov", "-i", &in2, "-o", &out, "-k", "9", "-s", "5", "-c", "6", "--counts"]);
+        *cases += 2;
+        if let Err(e) = run_cli(&a1) { return wit(&a1, e); }
+        if let Err(e) = run_cli(&a2) { return wit(&a2, e); }
+        std::fs::create_dir_all(&lib).unwrap();
+        let (i2, l2) = (in2.clone(), lib.clone());
+        let _ = guarded(move || { let mut c = coverage::CovComputer::new(i2, l2, 9, 5, 6); c.set_norm(false); c.set_max_memory(6.0); c.build_table().unwrap(); c.compute_coverages(); });
+        let x = std::fs::read(format!("{}/kmers.vectors", out)).unwrap_or_default();
+        let y = std::fs::read(format!("{}/kmers.vectors", lib)).unwrap_or_default();
+        if x != y || x.is_empty() { return wit(&a2, "second run into an output directory used before differs from the library run in a fresh directory".into()); }
+    }
     for bad in [vec!["-s", "4"], vec!["-c", "0"], vec!["-k", "6"], vec!["-m", "5"]] {
         let sc = Scratch::new("cli");
         let inp = sc.path("in.fa"); let out = sc.path("outd");
